@@ -35,8 +35,9 @@ func genC09(dir, tier string, seed int64) {
 		keep, nSoft = 1, 20000
 	}
 	cw := newCaseWriter(dir, "C09_ops", opHeader("CheckC09"), opFooter,
-		"ArgMax: all shapes of rank 1..4 with extents 1..3 and seven shapes with an extent of 4..17 x every axis in both spellings (and out-of-range ones) x keepdims in {absent,0,1}, payloads with ties, distinct values, NaNs (float) over float32/float64/int32/int64/uint32/uint64 (one 64-bit integer payload in three: neighbouring values beyond 2^53); ReduceMax/ReduceMin: the same shapes x every subset of axes (random positive/negative spelling, absent, unsorted) x keepdims in {absent,0,1}, NaN-free payloads; Softmax/LogSoftmax: seeded random shapes of rank 1..4 (extents 1..4) x every axis in both spellings (default and out-of-range too) x float32/float64, finite values across the whole range: tiny, ordinary, +-1e3 gaps inside a slice, up to +-3e38 / +-1e308, equal values, first element of the tensor far above a later row", false, 250)
+		"ArgMax: all shapes of rank 1..4 with extents 1..3 and seven shapes with an extent of 4..17 x every axis in both spellings (and out-of-range ones) x keepdims in {absent,0,1}, payloads with ties, distinct values, NaNs (float) over float32/float64/int32/int64/uint32/uint64 (one 64-bit integer payload in three: neighbouring values beyond 2^53); ReduceMax/ReduceMin: the same shapes x every subset of axes (random positive/negative spelling, absent, unsorted) x keepdims in {absent,0,1}, NaN-free payloads, the same element types and int8/uint8; Softmax/LogSoftmax: seeded random shapes of rank 1..4 (extents 1..4) x every axis in both spellings (default and out-of-range too) x float32/float64, finite values across the whole range: tiny, ordinary, +-1e3 gaps inside a slice, up to +-3e38 / +-1e308, equal values, first element of the tensor far above a later row", false, 250)
 	fdts := []tensor.Dtype{tensor.Float32, tensor.Float32, tensor.Float64, tensor.Int32, tensor.Int64, tensor.Uint32, tensor.Uint64}
+	rdts := append(append([]tensor.Dtype{}, fdts...), tensor.Int8, tensor.Uint8)
 	k := 0
 	payload := func(d tensor.Dtype, shape []int, withNaN bool) tensor.Tensor {
 		n := numel(shape)
@@ -70,7 +71,7 @@ func genC09(dir, tier string, seed int64) {
 		base := []int64{1 << 53, 1 << 60, math.MaxInt64 - 8, 1234567890123456784}[r.Intn(4)]
 		for i := range vals {
 			vals[i] = int64(r.Intn(5) - 2)
-			if d == tensor.Uint32 || d == tensor.Uint64 {
+			if d == tensor.Uint32 || d == tensor.Uint64 || d == tensor.Uint8 {
 				vals[i] = int64(r.Intn(4))
 			}
 			if big {
@@ -114,7 +115,7 @@ func genC09(dir, tier string, seed int64) {
 						continue
 					}
 					k++
-					d := fdts[k%len(fdts)]
+					d := rdts[k%len(rdts)] // ReduceMax / ReduceMin accept the 8-bit integers as well
 					x := payload(d, s, false)
 					var attrs []attr
 					ax := append([]int64{}, axes...)
